@@ -522,3 +522,219 @@ Proof.
       by (rewrite <- app_assoc; reflexivity).
     rewrite X in P. unfold positional in P. rewrite has_e in P. discriminate.
 Qed.
+
+(* -- the numeric literal of the expression parser *)
+Lemma is_digit_u_d c : is_d c = true -> is_digit_u c = true.
+Proof.
+  intros H. apply is_d_range in H. unfold is_digit_u, is_digit. replace (c <? 128)%N with true by lia.
+  replace ((48 <=? c)%N && (c <=? 57)%N) with true by lia. reflexivity.
+Qed.
+Lemma is_space_u_d c : is_d c = true -> is_space_u c = false.
+Proof.
+  intros H. apply is_d_range in H. unfold is_space_u, is_space. replace (c <? 128)%N with true by lia.
+  replace ((9 <=? c)%N && (c <=? 13)%N || (28 <=? c)%N && (c <=? 32)%N) with false by lia. reflexivity.
+Qed.
+Lemma span_p_digits ds rest : all_d ds = true -> stop rest = true -> span_p is_digit_u (ds ++ rest) = (length ds, rest).
+Proof.
+  induction ds as [|c ds IH]; intros Hd Hs.
+  - cbn [app length]. destruct rest as [|c t]; [reflexivity|]. cbn in Hs.
+    assert (c = 46%N \/ c = 101%N) as [->| ->] by lia; reflexivity.
+  - apply all_d_cons in Hd. destruct Hd as [Hc Hd]. cbn [app span_p]. rewrite (is_digit_u_d c Hc), IH by auto. reflexivity.
+Qed.
+
+Lemma lit_match_head d t : is_d d = true ->
+  lit_match (d :: t) =
+  let '(ni, s3) := span_p is_digit_u (d :: t) in
+  match ni with
+  | O => None
+  | _ =>
+    let '(nf, s4) := match s3 with 46%N :: t => let '(n, r) := span_p is_digit_u t in (S n, r) | _ => (O, s3) end in
+    let ne :=
+      match s4 with
+      | 101%N :: sg :: t =>
+          if ((sg =? 43) || (sg =? 45))%N then
+            match span_p is_digit_u t with (O, _) => O | (n, _) => S (S n) end
+          else O
+      | _ => O
+      end in
+    Some (O, (0 + 0 + ni + nf + ne)%nat)
+  end.
+Proof.
+  intros H. unfold lit_match. cbn [span_p]. rewrite (is_space_u_d d H). cbv iota beta.
+  apply is_d_range in H. replace ((d =? 43) || (d =? 45))%N with false by lia. reflexivity.
+Qed.
+
+Lemma lit_int I : I <> [] -> all_d I = true -> lit_match I = Some (O, length I).
+Proof.
+  intros HI DI. destruct I as [|d I']; [congruence|]. pose proof DI as DI'. apply all_d_cons in DI'. destruct DI' as [Hd _].
+  rewrite lit_match_head by auto. rewrite <- (app_nil_r (d :: I')) at 1. rewrite span_p_digits by auto.
+  cbn [length]. cbv iota beta. f_equal. f_equal. lia.
+Qed.
+Lemma lit_pos I F : I <> [] -> all_d I = true -> all_d F = true -> lit_match (I ++ 46%N :: F) = Some (O, length (I ++ 46%N :: F)).
+Proof.
+  intros HI DI DF. destruct I as [|d I']; [congruence|]. pose proof DI as DI'. apply all_d_cons in DI'. destruct DI' as [Hd _].
+  change ((d :: I') ++ 46%N :: F) with (d :: I' ++ 46%N :: F). rewrite lit_match_head by auto.
+  change (d :: I' ++ 46%N :: F) with ((d :: I') ++ 46%N :: F). rewrite span_p_digits by auto.
+  cbn [length]. cbv iota beta. rewrite <- (app_nil_r F) at 1. rewrite span_p_digits by auto. cbv iota beta.
+  rewrite app_length. cbn [length]. f_equal. f_equal. lia.
+Qed.
+Lemma lit_exp d F es E : is_d d = true -> all_d F = true -> is_sign es = true -> all_d E = true -> E <> [] ->
+  lit_match (d :: frac F ++ 101%N :: es :: E) = Some (O, length (d :: frac F ++ 101%N :: es :: E)).
+Proof.
+  intros Hd DF Hs DE HE. rewrite lit_match_head by auto.
+  assert (D1 : all_d [d] = true) by (apply all_d_cons; split; auto).
+  assert (Tail : (match 101%N :: es :: E with
+                  | 101%N :: sg :: t => if ((sg =? 43) || (sg =? 45))%N then match span_p is_digit_u t with (O, _) => O | (n, _) => S (S n) end else O
+                  | _ => O end) = S (S (length E))).
+  { cbv iota beta. unfold is_sign in Hs. rewrite Hs. rewrite <- (app_nil_r E) at 1. rewrite span_p_digits by auto.
+    destruct E; [congruence|]. reflexivity. }
+  destruct F as [|f F'].
+  - cbn [frac app]. change (d :: 101%N :: es :: E) with ([d] ++ 101%N :: es :: E) at 1. rewrite span_p_digits by auto.
+    cbn [length]. cbv iota beta. rewrite Tail. f_equal.
+  - change (d :: frac (f :: F') ++ 101%N :: es :: E) with ([d] ++ 46%N :: (f :: F') ++ 101%N :: es :: E).
+    rewrite span_p_digits by auto. cbn [length]. cbv iota beta. rewrite span_p_digits by auto. cbv iota beta. rewrite Tail.
+    rewrite !app_length. cbn [length]. rewrite app_length. cbn [length].
+    match goal with |- Some (O, ?a) = Some (O, ?b) => replace a with b by lia end. reflexivity.
+Qed.
+
+(* for x >= 0 the cleaned text is, as a whole, one numeric literal *)
+Theorem cleanup_is_literal s : ReprG s -> is_neg_text s = false -> lit_match (cleanup s) = Some (O, length (cleanup s)).
+Proof.
+  intros H N. inversion H as [neg I F HI DI HF DF Eq|neg d F es E Hd DF Hs DE HL Eq]; subst.
+  - assert (neg = false).
+    { destruct neg; [cbn in N; discriminate|reflexivity]. }
+    subst neg. rewrite cleanup_pos by auto. cbn [sgn app]. destruct (all_zero F).
+    + rewrite app_nil_r. apply lit_int; auto.
+    + apply lit_pos; auto.
+  - assert (neg = false).
+    { destruct neg; [cbn in N; discriminate|reflexivity]. }
+    subst neg. rewrite cleanup_exp by auto. cbn [sgn app]. apply lit_exp; auto. destruct E; [cbn in HL; lia|discriminate].
+Qed.
+
+(* ================================================================== F. the round trip, given CPython's contract *)
+Section CPython.
+  (* repr(float) and the decimal->binary conversion used by float(): ANY functions satisfying the contract below *)
+  Variable repr : flt -> str.
+  Variable strtod : bool -> Z -> Z -> flt.
+  (* David Gay's shortest repr: the text is in the grammar ... *)
+  Hypothesis repr_in_grammar : forall x, sf_is_finite x = true -> repr_ok (repr x) = true.
+  (* ... and float() reads it back exactly (correctly rounded strtod) *)
+  Hypothesis repr_roundtrip : forall x, sf_is_finite x = true -> float_with strtod (repr x) = Some x.
+  (* the conversion depends on the denoted number only, not on how mantissa and exponent split it *)
+  Hypothesis strtod_by_value : forall neg m e k, 0 <= k -> strtod neg (m * 10 ^ k) (e - k) = strtod neg m e.
+
+  Theorem roundtrip x : sf_is_finite x = true -> parse_number_with strtod (value_string_float (repr x)) = Some x.
+  Proof.
+    intros Fx. pose proof (repr_ok_sound _ (repr_in_grammar x Fx)) as G.
+    destruct (cleanup_value _ G) as [neg [m [e [m' [e' [P1 [P2 [_ [k [Hk [Em Ee]]]]]]]]]]].
+    pose proof (repr_roundtrip x Fx) as R. unfold float_with in R. rewrite P1 in R. cbn in R. assert (R' : strtod neg m e = x) by congruence. clear R.
+    unfold parse_number_with, float_with, value_string_float. rewrite P2. cbn [option_map to_flt].
+    subst m e. rewrite <- (strtod_by_value neg m' e' k Hk). rewrite R'. rewrite Fx. reflexivity.
+  Qed.
+
+  Theorem roundtrip_literal x : sf_is_finite x = true -> is_neg_text (repr x) = false ->
+    let text := value_string_float (repr x) in
+    lit_match text = Some (O, length text) /\ float_with strtod text = Some x.
+  Proof.
+    intros Fx N text. pose proof (repr_ok_sound _ (repr_in_grammar x Fx)) as G. split.
+    - apply cleanup_is_literal; auto.
+    - pose proof (roundtrip x Fx) as R. unfold parse_number_with in R. fold text in R.
+      destruct (float_with strtod text) as [f|]; [|discriminate]. destruct (sf_is_finite f); [exact R|discriminate].
+  Qed.
+End CPython.
+
+(* ================================================================== G. integers *)
+Lemma dval_snoc ds c : dval (ds ++ [c]) = dval ds * 10 + dv c.
+Proof. unfold dval, dacc. rewrite fold_left_app. reflexivity. Qed.
+
+Lemma pos_digits_spec fuel : forall n acc, (n < 2 ^ N.of_nat fuel)%N -> (0 < n)%N ->
+  exists ds, pos_digits_fuel fuel n acc = ds ++ acc /\ ds <> [] /\ all_d ds = true /\ dval ds = Z.of_N n.
+Proof.
+  induction fuel as [|f IH]; intros n acc Hn Hp.
+  - cbn in Hn. lia.
+  - cbn [pos_digits_fuel]. pose proof (N.div_mod n 10 ltac:(lia)) as DM. pose proof (N.mod_lt n 10 ltac:(lia)) as ML.
+    set (d := (n mod 10)%N) in *. set (q := (n / 10)%N) in *.
+    assert (Dd : is_d (48 + d) = true) by (apply is_d_range; lia).
+    destruct (q =? 0)%N eqn:Q.
+    + exists [(48 + d)%N]. repeat split; try discriminate.
+      * apply all_d_cons; split; auto.
+      * unfold dval, dacc, dv. cbn [fold_left]. lia.
+    + assert (Hq : (q < 2 ^ N.of_nat f)%N).
+      { rewrite Nat2N.inj_succ, N.pow_succ_r' in Hn. lia. }
+      destruct (IH q ((48 + d)%N :: acc) Hq ltac:(lia)) as [ds [E [NE [AD DV]]]].
+      exists (ds ++ [(48 + d)%N]). rewrite E. rewrite <- app_assoc. repeat split; auto.
+      * destruct ds; discriminate.
+      * apply all_d_app; split; auto. apply all_d_cons; split; auto.
+      * rewrite dval_snoc, DV. unfold dv. lia.
+Qed.
+
+Lemma N_to_str_spec p : exists ds, N_to_str (Npos p) = ds /\ ds <> [] /\ all_d ds = true /\ dval ds = Zpos p.
+Proof.
+  unfold N_to_str. destruct (pos_digits_spec (S (N.to_nat (N.log2 (Npos p)))) (Npos p) []) as [ds [E [NE [AD DV]]]].
+  - rewrite Nat2N.inj_succ, N2Nat.id. apply N.log2_spec. lia.
+  - lia.
+  - exists ds. rewrite E, app_nil_r. repeat split; auto.
+Qed.
+
+Lemma N_sign_match {X} (A B C : X) (d : N) :
+  (match d with 43%N => A | 45%N => B | _ => C end) = if (d =? 45)%N then B else if (d =? 43)%N then A else C.
+Proof. destruct d as [|p]; [reflexivity|]. do 7 (try destruct p as [p|p|]); reflexivity. Qed.
+
+Theorem int_roundtrip z : value_parse_integer (value_string_int z) = Some z.
+Proof.
+  unfold value_string_int. destruct z as [|p|p]; [vm_compute; reflexivity| |]; cbn [Z_to_str];
+    destruct (N_to_str_spec p) as [ds [-> [NE [AD DV]]]]; destruct ds as [|d ds']; try congruence;
+    pose proof AD as AD'; apply all_d_cons in AD'; destruct AD' as [Hd _].
+  - unfold value_parse_integer. rewrite strip_no_space by (apply all_d_no_space; auto).
+    rewrite N_sign_match.
+    apply is_d_range in Hd. replace (d =? 45)%N with false by lia. replace (d =? 43)%N with false by lia.
+    rewrite <- (app_nil_r (d :: ds')). rewrite scan_digits_app by auto.
+    assert (L : 0 + len (d :: ds') =? 0 = false) by (unfold len; cbn [length]; lia). rewrite L.
+    unfold dval in DV. rewrite DV. reflexivity.
+  - unfold value_parse_integer.
+    rewrite strip_no_space by (change (45%N :: d :: ds') with ([45%N] ++ d :: ds'); rewrite no_space_app, (all_d_no_space _ AD); reflexivity).
+    cbv iota beta. rewrite <- (app_nil_r (d :: ds')). rewrite scan_digits_app by auto.
+    assert (L : 0 + len (d :: ds') =? 0 = false) by (unfold len; cbn [length]; lia). rewrite L.
+    unfold dval in DV. rewrite DV. reflexivity.
+Qed.
+
+(* the text of an integer has no '.', and is the digits of |z| after an optional '-' *)
+Theorem int_text_shape z : no_dot (value_string_int z) = true /\ all_d (skipn (if z <? 0 then 1 else 0) (value_string_int z)) = true.
+Proof.
+  unfold value_string_int. destruct z as [|p|p]; [split; reflexivity| |]; cbn [Z_to_str];
+    destruct (N_to_str_spec p) as [ds [-> [NE [AD DV]]]].
+  - split; [apply all_d_no_dot; auto|exact AD].
+  - split; [cbn; apply all_d_no_dot; auto|exact AD].
+Qed.
+
+(* ================================================================== pins to the REGENERATED regexes *)
+(* the direct functions above are the meaning of exactly these two patterns; a changed pattern breaks these *)
+Example cleanup_regex_pin : R_NUMBER_CLEANUP = RCat (RLit 46%N) (RCat (RRep 0%nat None (RLit 48%N)) REol).
+Proof. reflexivity. Qed.
+Example literal_regex_pin :
+  R_EXPR_NUMBER =
+  (RCat RBol (RCat (RRep 0%nat None (RIn false [CCat CatSpace])) (RGroup 1%nat (RCat (RRep 0%nat (Some 1%nat) (RIn false [CLit 43%N; CLit 45%N])) (RCat (RRep 1%nat None (RIn false [CCat CatDigit])) (RCat (RRep 0%nat (Some 1%nat) (RCat (RLit 46%N) (RRep 0%nat None (RIn false [CCat CatDigit])))) (RRep 0%nat (Some 1%nat) (RCat (RLit 101%N) (RCat (RIn false [CLit 43%N; CLit 45%N]) (RRep 1%nat None (RIn false [CCat CatDigit]))))))))))).
+Proof. reflexivity. Qed.
+
+(* and the generic engine run on the regenerated patterns agrees with the direct functions (samples; the harness checks many more) *)
+Definition sample_texts : list str :=
+  [U "1.0"; U "-0.0"; U "123.456"; U "1e+16"; U "1.5e-07"; U "100.0"; U "0.000"; U "1.0e+16"; U "5e-324"; U "1.7976931348623157e+308";
+   U "12.00\00000a"; U "1.0.0"; U "."; U ".0"; U "1..0"; []; U "10"; U "1e5"; U " 7"; U "+3.e-2x"; U "-"; U "1.e"; U "1e+"; U "\000661\000662"].
+Example engine_agrees_on_samples :
+  forallb (fun s => option_eqb str_eqb (cleanup_rx s) (Some (cleanup s))) sample_texts = true /\
+  forallb (fun s => match lit_match_rx s, lit_match s with
+                    | Some (Some (a, b)), Some (a', b') => Nat.eqb a a' && Nat.eqb b b'
+                    | Some None, None => true
+                    | _, _ => false end) sample_texts = true.
+Proof. vm_compute. split; reflexivity. Qed.
+
+(* non-vacuity: concrete texts of the grammar and what happens to them *)
+Example repr_samples :
+  forallb repr_ok [U "1.0"; U "-0.0"; U "123.456"; U "1e+16"; U "1.5e-07"; U "5e-324"; U "1.7976931348623157e+308"; U "-2.5e+300"] = true /\
+  forallb (fun s => negb (repr_ok s)) [U "1"; U "1."; U ".5"; U "1e16"; U "1e+5"; U "inf"; U "nan"; U "1.0 "; U "--1.0"; U "1.5e"; U "12.5e+10"] = true /\
+  map cleanup [U "1.0"; U "-0.0"; U "123.456"; U "1e+16"; U "100.0"; U "1e+20"; U "1.5e-10"] =
+              [U "1"; U "-0"; U "123.456"; U "1e+16"; U "100"; U "1e+20"; U "1.5e-10"] /\
+  value_parse_number (cleanup (U "1e+20")) = py_float (U "1e+20") /\
+  value_parse_number (U "1e309") = None /\ value_parse_number (U "nan") = None /\ value_parse_number (U "-Infinity") = None /\
+  value_parse_number (U "1_0") = py_float (U "10") /\ value_parse_integer (U " -1_2 ") = Some (-12) /\ value_parse_integer (U "0x10") = None.
+Proof. vm_compute. repeat split; reflexivity. Qed.
